@@ -321,6 +321,153 @@ fn permutations4() -> Vec<Vec<usize>> {
     out
 }
 
+// ---------------------------------------------------------------- several browses open at once
+
+/// Browses open at once (every non-empty subset of {type T, subtype S of T, other type U}) x three
+/// instances (I1: type T with subtype S; I2: type T, same host as I1; I3: type U, same host) x
+/// packetisation x gap x when the browses start.  Every open channel must get ServiceFound then
+/// ServiceResolved for each instance that belongs to what it browses.
+fn run_concurrent(x: &[u64], trace: bool) -> CaseResult {
+    // x = [browse subset 1..=7, packetisation 0..4, gap 0..2, late-browse 0..2]
+    let mut res = CaseResult::default();
+    let mut w = World::one(lay_v4());
+    w.trace = trace;
+    w.ds[0].h.set_ip_check_interval(0).unwrap();
+    w.poke(0);
+    let tys = ["_t._tcp.local.", "_s._sub._t._tcp.local.", "_u._udp.local."];
+    let mk = |label: &str, ty: &str, sub: Option<&str>, port: u16| -> Inst {
+        let tyn = n(ty);
+        let mut inst = vec![label.as_bytes().to_vec()];
+        inst.extend(tyn.clone());
+        Inst { ty: tyn, sub: sub.map(n), inst, host: n("hostx.local"), port, txt: txt_rdata(&[(b"k", Some(b"v"))]), v4: vec![[10, 0, 0, 9]], v6: vec![] }
+    };
+    let i1 = mk("i1", "_t._tcp.local", Some("_s._sub._t._tcp.local"), 81);
+    let i2 = mk("i2", "_t._tcp.local", None, 82);
+    let i3 = mk("i3", "_u._udp.local", None, 83);
+    // which instance belongs to which browse
+    let belongs: [[bool; 3]; 3] = [[true, true, false], [true, false, false], [false, false, true]];
+    let insts = [&i1, &i2, &i3];
+    let open: Vec<usize> = (0..3).filter(|b| x[0] & (1 << b) != 0).collect();
+    let mut chans: Vec<(usize, usize)> = vec![];
+    let start_browses = |w: &mut World, chans: &mut Vec<(usize, usize)>, which: &[usize]| {
+        for &b in which {
+            let rx = w.ds[0].h.browse(tys[b]).unwrap();
+            let ch = w.add_browse(0, rx);
+            chans.push((b, ch));
+        }
+        w.poke(0);
+    };
+    // late-browse 0: all browses before the records; 1: the last browse of the subset starts after
+    // the records (served from the cache)
+    let (early, late): (Vec<usize>, Vec<usize>) = if x[3] == 1 && open.len() > 1 { (open[..open.len() - 1].to_vec(), open[open.len() - 1..].to_vec()) } else { (open.clone(), vec![]) };
+    start_browses(&mut w, &mut chans, &early);
+    w.advance(50);
+    // records: PTRs (type and subtype), SRV, TXT per instance, one shared address
+    let mut per_inst: Vec<Vec<Record>> = vec![];
+    for i in insts {
+        let mut v = vec![i.ptr(120)];
+        if let Some(sub) = &i.sub {
+            v.push(ptr(sub, &i.inst, 120));
+        }
+        v.push(i.srv(120));
+        v.push(i.txt(120));
+        per_inst.push(v);
+    }
+    let addr = i1.addrs(120).remove(0);
+    let packets: Vec<Vec<Record>> = match x[1] {
+        0 => {
+            let mut all: Vec<Record> = per_inst.concat();
+            all.push(addr);
+            vec![all]
+        }
+        1 => {
+            // each instance's packet carries the shared host's address (a packet that holds only
+            // another type's instance may be ignored whole, address included)
+            let mut v = per_inst.clone();
+            for p in v.iter_mut() {
+                p.push(addr.clone());
+            }
+            v
+        }
+        2 => {
+            let mut v: Vec<Vec<Record>> = per_inst.concat().into_iter().map(|r| vec![r]).collect();
+            v.push(vec![addr]);
+            v
+        }
+        _ => {
+            let mut v: Vec<Vec<Record>> = per_inst.concat().into_iter().map(|r| vec![r]).collect();
+            v.push(vec![addr]);
+            v.reverse();
+            v
+        }
+    };
+    let np = packets.len();
+    for (k, recs) in packets.into_iter().enumerate() {
+        let p = build(&response(recs));
+        if x[2] == 0 {
+            w.queue(0, IF0, PEER0, p);
+            if k + 1 == np {
+                w.poke(0);
+            }
+        } else {
+            w.deliver(0, IF0, PEER0, p);
+        }
+    }
+    start_browses(&mut w, &mut chans, &late);
+    let done_at = w.now;
+    for (b, ch) in &chans {
+        let evs = bevs(&w, 0, *ch, 0);
+        for (k, i) in insts.iter().enumerate() {
+            if !belongs[*b][k] {
+                continue;
+            }
+            if late.contains(b) {
+                // records that arrived before this browse started count only if their packet was
+                // not solely an answer to someone else's browse of another type back then: the
+                // packet holding this instance's PTR for b also held a PTR of an early-browsed type
+                let owners: Vec<usize> = match x[1] {
+                    0 => vec![0, 1, 2],
+                    1 => [vec![0, 1], vec![0], vec![2]][k].clone(),
+                    _ => vec![],
+                };
+                if !owners.iter().any(|o| early.contains(o)) {
+                    res.count("late_browse_without_admissible_records", 1);
+                    continue;
+                }
+            }
+            let full = i.fullname();
+            let f = evs.iter().position(|(_, e)| matches!(e, BEv::Found(_, f) if *f == full));
+            let r = evs.iter().position(|(_, e)| matches!(e, BEv::Resolved(r) if r.fullname == full));
+            let ctx = || format!("browse {} of {:?}, instance {}: events {:?}", tys[*b], open.iter().map(|b| tys[*b]).collect::<Vec<_>>(), full, evs.iter().map(|(t, e)| (t - T0, format!("{e:?}"))).collect::<Vec<_>>());
+            res.count("channel_instance_pairs", 1);
+            match (f, r) {
+                (Some(f), Some(r)) if f < r => {
+                    let lr = evs.iter().rposition(|(_, e)| matches!(e, BEv::Resolved(r) if r.fullname == full)).unwrap();
+                    if let BEv::Resolved(rs) = &evs[lr].1 {
+                        if rs.port != i.port || !rs.addrs.iter().any(|a| a.ip == ip4([10, 0, 0, 9])) {
+                            res.viols.push(viol("C04|concurrent|resolved-with-wrong-content", ctx()));
+                        }
+                    }
+                    if evs[r].0 > done_at {
+                        res.viols.push(viol("C04|concurrent|resolved-later-than-the-next-scheduling-step", ctx()));
+                    }
+                }
+                (Some(_), Some(_)) => res.viols.push(viol("C04|concurrent|ServiceResolved-before-ServiceFound", ctx())),
+                (None, _) => res.viols.push(viol("C04|concurrent|complete-instance-not-reported|no-ServiceFound", ctx())),
+                (_, None) => res.viols.push(viol("C04|concurrent|complete-instance-not-reported|no-ServiceResolved", ctx())),
+            }
+        }
+    }
+    if let Some(f) = daemon_fault(&w, 0) {
+        res.viols.push(viol(format!("C04|daemon-fault|{}", panic_sig(&f)), f));
+    }
+    res.nontrivial = true;
+    res.transitions = w.steps;
+    res.outcome = outcome_hash(&w.log);
+    res.states = final_states(&w);
+    res
+}
+
 pub fn check(tier: &str) -> i32 {
     let mut rep = Report::new("C04", tier, "model_checking");
     let thorough = rep.thorough();
@@ -338,6 +485,17 @@ pub fn check(tier: &str) -> i32 {
         run: Box::new(move |i, tr| run_partition(&unrank(i, &dims), &parts, tr)),
     };
     rep.run_part(&p1, Duration::from_secs(if thorough { 1800 } else { 50 }));
+
+    let cdims = [7u64, 4, 2, 2];
+    let pc = FnPart {
+        name: "concurrent-browses".into(),
+        rule: "every non-empty subset of browses {type T, subtype S of T, other type U} open at once x 3 instances sharing a host (T with subtype S, T, U) x packetisation (one packet / one per instance / one record per packet / that reversed) x (same iteration / next iteration) x (all browses before the records / the last one after them); every open channel must report each instance that belongs to it".into(),
+        n: product(&cdims),
+        describe: Box::new(move |i| { let x = unrank(i, &cdims); format!("browses {:#05b} packetisation {} gap {} late-browse {}", x[0] + 1, x[1], x[2], x[3]) }),
+        run: Box::new(move |i, tr| { let mut x = unrank(i, &cdims); x[0] += 1; run_concurrent(&x, tr) }),
+    };
+    rep.run_part(&pc, Duration::from_secs(120));
+    rep.require("concurrent-browses", "channel_instance_pairs");
 
     let perms = permutations4();
     let ldims = [24u64, 4, nshapes];
